@@ -218,6 +218,25 @@ def make_tree(kind, seed, t):
         base = tables.TreeGen(t, seed, max_depth=3, breadth=3).gen(rnd.choice(["dataset", "creator", "eml"]))
         root = valtrace.reid(base, idfn=lambda i: "id-%d" % (i // 2))       # nodes 2k and 2k+1 share an id
         return root
+    if kind == "doubled":
+        # every child of the upper levels occurs twice in a row (a copy next to it): repeatable elements really repeated -
+        # several physical / distribution / coverage / creator ... children where documents usually have one
+        root = tables.TreeGen(t, seed, max_depth=5, breadth=3).gen("dataset")
+        dt = tables.TreeGen(t, seed + 1, max_depth=5, breadth=3).gen("dataTable")
+        if dt.find_child("physical") is None:
+            ph = Node("physical")
+            ph.add_child(Node("objectName", content="t.csv"))
+            ph.add_child(Node("size", content="10"))
+            dt.add_child(ph, index=min(1, len(dt.children)))
+        root.add_child(dt)
+
+        def double(n, depth):
+            for c in list(n.children):
+                if depth < 2:
+                    double(c, depth + 1)
+                n.add_child(c.copy(), index=n.children.index(c) + 1)
+        double(root, 0)
+        return root
     if kind == "falsy":
         # every optional field of every node (the root included) holds its FALSY non-None value: tail "", content "", attribute
         # and extras values "", a prefix "" - a save/restore guarded by `if value:` does not put these back
@@ -436,9 +455,9 @@ def run(rep, tier, seed):
     for i, kind in enumerate(["generated", "entities", "ns", "default-ns", "shadowed", "falsy", "shared-ids"] + (["generated", "entities"] if tier == "thorough" else [])):      # (small trees: 31^2 pairs of calls each)
         jobs.append((kind, seed * 101 + i, plan_pairs))
     # seeded sequences of length 24 on larger trees, incl. the fixture
-    nseq = 26 if tier == "quick" else 312
+    nseq = 28 if tier == "quick" else 322
     for i in range(nseq):
-        kind = ["fixture", "generated", "entities", "ns", "default-ns", "mutated", "stripped", "exotic", "unregistered", "padded-typed", "shadowed", "falsy", "shared-ids"][i % 13]
+        kind = ["fixture", "generated", "entities", "ns", "default-ns", "mutated", "stripped", "exotic", "unregistered", "padded-typed", "shadowed", "falsy", "shared-ids", "doubled"][i % 14]
         jobs.append((kind, seed * 977 + i, [rnd.choice(sorted(ops)) for _ in range(24)]))
     jobs.append(("abyss", 1100, []))
     traces = [tr for chunk in parallel(w_record, jobs, chunk=1) for tr in chunk]
